@@ -771,6 +771,13 @@ def run_histories(ctx, hists, oracles, tag="random"):
             if n != 1:
                 ctx.fail("oracle", "dropped-subscription-not-unsubscribed-once", case,
                          "subscription %r was dropped (or lagged) while the request queue was full, the read task then had to close it: %d unsubscribe requests on the wire, exactly one expected" % (H.expect_unsub, n))
+        if getattr(H, "expect_unsub2", None) is not None and not any(d["F"] for d in evs):
+            um, sid = H.expect_unsub2
+            n = sum(1 for k, o in wire_requests(evs)
+                    if isinstance(o, dict) and o.get("method") == um and json.dumps(o.get("params")) == json.dumps([sid]))
+            if n != 1:
+                ctx.fail("oracle", "reused-subscription-id-not-unsubscribed-once", case,
+                         "the second subscription under id %r ended (lag / drop): %d `%s` requests on the wire, exactly one expected" % (sid, n, um))
         if "c18" in oracles:
             if H.clean and quiescent_by_output(H, evs):
                 ctx.count("c18:quiescent-histories")
@@ -907,6 +914,29 @@ def c05_lag_histories(rng):
                         H.add("next %d" % s["h"], kind="next")
                     for _ in range(3):
                         H.add("release", kind="release")
+                        H.add("next %d" % s["h"], kind="next")
+                    H.clean = False
+                    H.expect_lag = s["h"]
+                    out.append(H)
+    # the consumer polls a few times between pushes and then stalls: it counts as lagging as soon as more than `bufcap`
+    # notifications are unread, however the earlier reads were interleaved with the pushes
+    for idstr in (0, 1):
+        for bufcap in (2, 3, 4, 8):
+            for first in range(1, bufcap + 1):
+                for reads in range(1, min(first, 2) + 1):
+                    H = new_hist(rng, idstr=idstr, bufcap=bufcap, gate=0, qcap=16)
+                    H.op_sub()
+                    s = accept_sub_h(H, H.h)
+                    k = 0
+                    for _ in range(first):
+                        push_group(H, s, ["p%d" % k])
+                        k += 1
+                    for _ in range(reads):
+                        H.add("next %d" % s["h"], kind="next")
+                    for _ in range(bufcap + 1 - (first - reads)):          # now bufcap + 1 unread
+                        push_group(H, s, ["p%d" % k])
+                        k += 1
+                    for _ in range(bufcap + 3):
                         H.add("next %d" % s["h"], kind="next")
                     H.clean = False
                     H.expect_lag = s["h"]
@@ -1188,6 +1218,23 @@ def c09_sendfault_histories(rng):
                 H.add("ondisc" if False else "next %d" % hs, kind="next")
                 H.clean = False
                 out.append(H)
+    # requests of every kind QUEUED behind a transport write that is stalled when the connection dies (receive fault or the
+    # stalled write itself failing): each of them -- subscribe_to_method included -- must complete with the cause
+    for idstr in (0, 1):
+        for queued in (("call",), ("batch",), ("sub",), ("subm",), ("subm", "call"), ("call", "subm", "sub", "batch")):
+            for how in ("fault", "failsend"):
+                H = new_hist(rng, idstr=idstr, qcap=16, bufcap=2, gate=1)
+                H.op_call()                           # stalls inside its transport write
+                for q in queued:
+                    {"call": H.op_call, "batch": H.op_batch, "sub": H.op_sub, "subm": H.op_subm}[q]()
+                H.add(how, kind=how)
+                for _ in range(3):
+                    H.add("release", kind="release")
+                H.dead = True
+                H.op_subm()
+                H.op_call()
+                H.clean = False
+                out.append(H)
     return out
 
 
@@ -1408,4 +1455,61 @@ def seqform_histories(rng, reps=3):
                 nexts(H, s["h"], 2)
                 H.clean = False
                 out.append(H)
+    return out
+
+
+
+def c18_sid_reuse_histories(rng):
+    """the server hands the id of an ENDED subscription to a new one (legitimate): whatever ended the first one -- lag whose
+    close request was still queued when the server closed it, server close, unsubscribe, drop -- must leave nothing behind
+    that changes the fate of the second (which then lags / is dropped and must be unsubscribed exactly once)"""
+    out = []
+    for idstr in (0, 1):
+        for gate in (0, 1):
+            for end1 in ("lag+srvclose", "srvclose", "unsub", "drop", "lag"):
+                for end2 in ("lag", "drop"):
+                    H = new_hist(rng, idstr=idstr, bufcap=1, gate=gate, qcap=16)
+                    rel = (lambda n=3: [H.add("release", kind="release") for _ in range(n)]) if gate else (lambda n=3: None)
+                    H.op_sub()
+                    h1 = H.h
+                    rel()
+                    s1 = accept_sub_h(H, h1, sid="X")
+                    if gate:
+                        H.op_call()                      # keeps the send task inside a transport write
+                    if end1.startswith("lag"):
+                        for k in range(2):               # buffer 1, nobody polls: the second push makes it lag
+                            H.add("back %s" % hx(J(H.notif(s1["nm"], "X", "a%d" % k))), kind="back", what="pushes",
+                                  items=[dict(what="push", sid="X", val="a%d" % k)], grouped=False)
+                    if "srvclose" in end1:
+                        H.add("back %s" % hx(J(H.notif(s1["nm"], "X", "bye", err=True))), kind="back", what="close", sid="X", h=h1, grouped=False)
+                        s1["server_closed"] = True
+                    if end1 == "unsub":
+                        H.add("unsub %d %d" % (H.newh(), h1), kind="unsub", sh=h1, sid="X", uid=s1["uid"])
+                    if end1 == "drop":
+                        H.add("drop %d" % h1, kind="drop", sh=h1, sid="X", uid=s1["uid"])
+                    H.active.pop(h1, None)
+                    s1["gone"] = True
+                    H.ended.append(s1)
+                    rel(6)
+                    for _ in range(3):
+                        H.add("next %d" % h1, kind="next") if end1 not in ("unsub", "drop") else None
+                    # second subscription, same id
+                    H.op_sub()
+                    h2 = H.h
+                    rel()
+                    s2 = accept_sub_h(H, h2, sid="X")
+                    rel()
+                    if end2 == "lag":
+                        for k in range(2):
+                            H.add("back %s" % hx(J(H.notif(s2["nm"], "X", "b%d" % k))), kind="back", what="pushes",
+                                  items=[dict(what="push", sid="X", val="b%d" % k)], grouped=False)
+                        rel(6)
+                        for _ in range(3):
+                            H.add("next %d" % h2, kind="next")
+                    else:
+                        H.add("drop %d" % h2, kind="drop", sh=h2, sid="X", uid=s2["uid"])
+                        rel(6)
+                    H.clean = False
+                    H.expect_unsub2 = ("unsub%d" % h2, "X")
+                    out.append(H)
     return out
